@@ -43,9 +43,19 @@ def run(ctx):
     ss += S.generate(ctx, 2 if ctx.quick else 6, 6, max_e=8, max_loops=7, routings_per_graph=2, names=["banana8"], kinds=("uniform", "corner"))
     # exact coincidences among the propagator powers (repeated at non-adjacent positions; equal to the overall dod)
     ss += S.generate(ctx, 0, 2, routings_per_graph=1, kinds=("uniform",), special=("repeated_weights", "weights_equal_dod") * (3 if ctx.quick else 10))
+    # raised propagators: Gamma(dod) and prod Gamma(w) beyond 1e100, the normalisation itself an ordinary number
+    from .. import oracle as O_
+    big = []
+    for edges, w, massive, ext, D in (([(0, 0)], [90.0], [True], [0], 3), ([(0, 1), (0, 1)], [60.0, 60.0], [True, True], [0, 1], 3),
+                                      ([(0, 1), (0, 1)], [45.5, 50.25], [True, True], [0, 1], 4)):
+        dod, Lf, table = O_.table_oracle(edges, w, massive, ext, D)
+        if not O_.divergent_subsets(table):
+            big.append(dict(edges=edges, weights=w, massive=massive, ext=ext, D=D, table=table, dod=dod, loops=Lf, accepted=True, name="raised_propagators"))
+    ss += S.samples_for_cases(ctx, big, 2)
     S.run(ss)
     SC.corr_sample(ctx, ss)
     SC.normalisation_oracle(ctx, ss)
+    SC.rng_entry_agreement(ctx, ss[:: 5], k=8)        # the Monte Carlo entry point: same numbers, same outcome, nothing redrawn
     SC.generic_scalar_guard(ctx, ss[:: 7], k=8)
     for s in ss:
         c, r, a = s["case"], s["routing"], s["impl"]
